@@ -130,10 +130,6 @@ theorem tailEarly_exported (s : Script α) (ke : α) (st : St α) :
       intro st; simp [List.prefix_append]
     · simpa using storeIf_prefix _ _ st
 
-theorem R.bind_eq_next {r : R α} {f : St α → R α} {st' : St α} (h : r.bind f = .next st') :
-    ∃ st1, r = .next st1 ∧ f st1 = .next st' := by
-  cases r <;> simp_all [R.bind]
-
 theorem tailLate_next_exported (s : Script α) (ke : α) (st st' : St α) (h : tailLate s ke st = .next st') :
     Event.exp ∈ st'.ev := by
   unfold tailLate at h
@@ -145,12 +141,6 @@ theorem tailLate_next_exported (s : Script α) (ke : α) (st st' : St α) (h : t
   subst h
   have h0 : Event.exp ∈ (stepExportState s4).ev := by simp [stepExportState]
   exact ((storeIf_prefix _ _ _).trans ((storeIf_prefix _ _ _).trans (storeIf_prefix _ _ _))).subset h0
-
-/-- the events of a run contain those of the `try` block -/
-theorem integrate_ev_of_body (v : Variant) (s : Script α) :
-    (body v s (st0 s)).st.ev <+: (integrate v s).st.ev := by
-  unfold integrate
-  split <;> rename_i heq <;> simp [heq, List.prefix_append]
 
 /-- **C40, shipped order, what is provable** — missing with respect to the full statement: the runs in
 which `exportStateData` was reached. Every call that fails before `b.exportStateData(d.s1)` (initialisation,
@@ -214,9 +204,6 @@ theorem pre_code_none_iff (v : Variant) (s : Script α) (st : St α) :
     by_cases h3 : isPrediction (effK0 s.k0) = true <;>
     by_cases h4 : s.traits.hasCTO = false ∧ integSmt (effK0 s.k0) ≠ .noStiffness <;>
     by_cases h5 : integrationOk s <;> by_cases h6 : predictionOk s <;> simp_all
-
-theorem R.code_none {r : R α} (h : r.code = none) : ∃ st, r = .next st := by
-  cases r <;> simp_all [R.code]
 
 /-- **the defect of the shipped order, exactly**: with the state exported first, a call returns `-1` with
 `s1` already written if and only if everything up to the a posteriori time step factor succeeded and one
